@@ -199,6 +199,22 @@ def script_ops(rng, tier):
     return ops
 
 
+def tovec_stream(rng, tier):
+    """minicbor::to_vec / to_vec_with on a thread with a history; also used by C03 (same value, same bytes, whatever was encoded before)"""
+    ops, mops = [], []
+    for v in typed_values(rng, tier):
+        ch = val_chain(v)
+        exp = enc_chain(ch)
+        for k in TOVEC:
+            ops.append(f"sinkval {k} 0 {v} #exp:{gen.hexb(exp)}")
+            mops.append(f"sinkenc vec 0 {' '.join(ch)}")
+    st = Stream("to-vec-with-history", "hcore", ops, model_ops=mops, judge=judge_enc, nontrivial=nontrivial,
+                rule="sinkval tovec*: minicbor::to_vec / to_vec_with after failed calls on this thread, after a big one, nested inside another to_vec: "
+                     "always the bytes of the value alone (own-encoder oracle + the model's one growable vector)")
+    st.shrinkable = False
+    return st
+
+
 def value_chains(rng, tier):
     """lists of Encoder calls."""
     out = []
